@@ -181,10 +181,10 @@ def execute(sc, ctx):
     except Exception as e:
         ctx.counters["op_raised:write_config/" + type(e).__name__] += 1
         return
-    ftext = open(F, encoding="utf-8").read()
+    ftext = open(F, encoding="utf-8", errors="surrogateescape").read()
     fminus = kgen.strip_default_marked(ftext)
     Fm = os.path.join(sb, "F_minus")
-    with builtins.open(Fm, "w", encoding="utf-8") as f:
+    with builtins.open(Fm, "w", encoding="utf-8", errors="surrogateescape") as f:
         f.write(fminus)
     entries = parse_entries(ftext)
     upgrade = sc["mode"] == "upgrade" and sc.get("prog2")
@@ -337,7 +337,7 @@ def execute(sc, ctx):
     ptext = strip_promptless(ftext, kA)
     if ptext != ftext:
         ctx.counters["probe:promptless-entries"] += 1
-        with builtins.open(Fp, "w", encoding="utf-8") as f:
+        with builtins.open(Fp, "w", encoding="utf-8", errors="surrogateescape") as f:
             f.write(ptext)
         C = boot()
         try:
